@@ -290,11 +290,14 @@ func (a *apiGen) request() {
 		t, w, c := a.wid()
 		_ = w
 		a.g.Stats["wid-"+c]++
+		eng := a.g.Engine
+		a.g.Engine = "api" // precise even in robust mode: depends on the wallet status only
 		a.g.Op("call-UseWallet", "call UseWallet %s", t)
 		if c == "known" && !a.removing[w] && !a.removed[w] && !a.import_[w] {
 			a.cur = w
 		}
-		a.g.Op("res", "res") // depends on wallet status only
+		a.g.Op("res", "res")
+		a.g.Engine = eng
 	case 2:
 		a.call("bal", "GetWalletBalance", a.pick("0", "1", "6", "-1", "2147483647", "-2147483648"), a.pick("0", "1"))
 	case 3:
@@ -340,7 +343,7 @@ func (a *apiGen) request() {
 		if a.rn(4) == 0 {
 			sub, _ = a.addr()
 		}
-		lt := a.pick("0", "0", "0", "1", "9223372036854775807", "9223372036854775808", "18446744073709551615")
+		lt := a.pick("0", "0", "0", "0", "0", "0", "1", "9223372036854775807", "9223372036854775808", "18446744073709551615")
 		a.call("create", "CreateRawTransaction", a.inputs(), a.amounts(), lt, ch, sub)
 		a.haveRawc = true
 	case 13, 14:
@@ -352,7 +355,7 @@ func (a *apiGen) request() {
 		if a.rn(3) == 0 {
 			ch, _ = a.addr()
 		}
-		a.call("auto", "AutoCreateTransaction", a.amounts(), a.pick("0", "0", "5", "9223372036854775808"), fee, from, ch)
+		a.call("auto", "AutoCreateTransaction", a.amounts(), a.pick("0", "0", "0", "5", "9223372036854775808"), fee, from, ch)
 		a.haveRawc = true
 	case 15, 16, 17, 18:
 		t, c := a.hexBlob()
@@ -513,6 +516,186 @@ func (a *apiGen) craft() {
 	a.rawTx = append(a.rawTx, name)
 }
 
+
+// ---------------------------------------------------------------- mostly-valid flows
+
+// coinsOfCur: coins of the wallet in use by state: unspent on the tip, created by a pending tx, spent on the chain
+func (a *apiGen) flowCoin() (string, int, string) {
+	l := a.l
+	w := a.cur
+	switch k := a.rn(10); {
+	case k < 5:
+		if c, ok := a.ownCoin(w); ok {
+			return c.tx, c.idx, "unspent"
+		}
+	case k < 8:
+		for _, t := range l.pool {
+			for _, c := range outCoins(t, 0) {
+				if l.owner[c.addr] == w && c.amt > 0 {
+					return c.tx, c.idx, "pending-" + c.cls
+				}
+			}
+		}
+	default:
+		// an output of the wallet that is no longer on the tip view (spent or reorganised away)
+		for _, n := range a.knownTxs() {
+			t := l.defined[n]
+			for _, c := range outCoins(t, 0) {
+				if l.owner[c.addr] == w && c.amt > 0 {
+					if _, live := l.tip().utxo[c.key()]; !live {
+						return c.tx, c.idx, "spent-or-gone"
+					}
+				}
+			}
+		}
+	}
+	if c, ok := a.ownCoin(w); ok {
+		return c.tx, c.idx, "unspent"
+	}
+	return "", 0, ""
+}
+
+// flowSign: a client-built transaction spending a coin of the wallet, signed with the right passphrase
+func (a *apiGen) flowSign() {
+	if a.cur == "" {
+		return
+	}
+	tx, idx, st := a.flowCoin()
+	if tx == "" {
+		return
+	}
+	l := a.l
+	l.nTx++
+	name := fmt.Sprintf("T%d", l.nTx)
+	outs := fmt.Sprintf("%s:%d", l.stranger(), 1+a.rn(50))
+	if a.rn(4) == 0 {
+		outs += fmt.Sprintf(";%s:%d", l.someAddr(a.cur), 1+a.rn(20))
+	}
+	ins := fmt.Sprintf("%s:%d", tx, idx)
+	if a.rn(5) == 0 { // second input: anything
+		t2, n2, _ := a.txid()
+		if strings.HasPrefix(t2, "tx:") && n2 > 0 {
+			ins += fmt.Sprintf(";%s:%d", t2[3:], a.rn(n2+1))
+		}
+	}
+	a.g.Op("tx-client", "tx %s %d %s %s", name, l.nTx, ins, outs)
+	a.rawTx = append(a.rawTx, name)
+	p, pc := a.pass(a.cur)
+	if a.rn(4) > 0 {
+		p, pc = "pass:"+a.cur, "right"
+	}
+	a.g.Stats["pass-"+pc]++
+	a.g.Stats["sign-"+st]++
+	a.call("sign-flow", "SignRawTransaction", "raw:"+name, a.pick("-", "-", "a:ALL", "a:SINGLE", "a:NONE|ANYONECANPAY"), p)
+	a.haveRaws = true
+	if a.rn(3) == 0 {
+		a.call("send-flow", "SendRawTransaction", "raws")
+	}
+}
+
+// flowCreate: manual create from coins of the wallet, then sign it
+func (a *apiGen) flowCreate() {
+	if a.cur == "" {
+		return
+	}
+	var ins []string
+	for i, n := 0, 1+a.rn(2); i < n; i++ {
+		tx, idx, st := a.flowCoin()
+		if tx == "" {
+			return
+		}
+		a.g.Stats["create-"+st]++
+		ins = append(ins, fmt.Sprintf("tx:%s/%d", tx, idx))
+	}
+	am := a.pick("a:0.01", "a:0.5", "a:1", "a:0.00001")
+	a.call("create-flow", "CreateRawTransaction", strings.Join(ins, ","), fmt.Sprintf("xaddr:X%d>%s", 1+a.rn(2), am), a.pick("0", "0", "7"), "-", "-")
+	a.haveRawc = true
+	a.call("sign-flow", "SignRawTransaction", "rawc", "-", "pass:"+a.cur)
+	a.haveRaws = true
+	if a.rn(2) == 0 {
+		a.call("decode", "DecodeRawTransaction", a.pick("rawc", "raws"))
+	}
+}
+
+// flowAuto: automatic create with sane arguments, then sign
+func (a *apiGen) flowAuto() {
+	if a.cur == "" {
+		return
+	}
+	switch a.rn(4) {
+	case 0:
+		a.call("auto-flow", "AutoCreateTransaction", fmt.Sprintf("xaddr:X1>%s", a.pick("a:0.01", "a:0.3", "a:2")), "0", a.pick("-", "a:0.0001", "a:0.01"), "-", "-")
+	case 1:
+		if x := a.ownAddr(); x != "" {
+			a.call("stake-flow", "CreateStakingTransaction", "-", "saddr:"+x, a.pick("a:2048", "a:0.5"), a.pick("3", "10", "61440"), "a:0.0001")
+		}
+	case 2:
+		if x := a.ownAddr(); x != "" {
+			a.call("bind-flow", "CreateBindingTransaction", fmt.Sprintf("addr:%s/%s/%s", x, a.pick("pkh:1", "bt:1", "bt:2"), a.pick("a:0.1", "a:1")), "-", "a:0.0001")
+		}
+	default:
+		a.call("fee-flow", "GetTransactionFee", "xaddr:X1>a:0.5", "-", a.pick("0", "1"))
+	}
+	a.haveRawc = true
+	if a.rn(2) == 0 {
+		a.call("sign-flow", "SignRawTransaction", "rawc", "-", "pass:"+a.cur)
+		a.haveRaws = true
+	}
+}
+
+// craftPending delivers an unconfirmed transaction with template-violating outputs (it may be mined later)
+func (a *apiGen) craftPending() {
+	l := a.l
+	u := map[string]gCoin{}
+	for k, v := range l.tip().utxo {
+		u[k] = v
+	}
+	for _, p := range l.pool {
+		applyTx(u, p, l.tip().height+1)
+	}
+	ins := l.pickCoins(u, l.tip().height+1, "")
+	if ins == nil {
+		return
+	}
+	l.nTx++
+	t := &gTx{name: fmt.Sprintf("T%d", l.nTx), ins: ins}
+	var total int64
+	var inSpecs []string
+	for _, c := range ins {
+		total += c.amt
+		sp := c.key()
+		if c.cls == "stk" {
+			sp += fmt.Sprintf(":%d", c.frozen+1)
+		}
+		inSpecs = append(inSpecs, sp)
+	}
+	rest := total
+	n := 1 + a.rn(3)
+	for i := 0; i < n; i++ {
+		amt := rest / int64(n-i+1)
+		switch a.rn(5) {
+		case 0:
+			w := l.wallets[a.rn(len(l.wallets))]
+			t.outs = append(t.outs, fmt.Sprintf("%s:%d:bindbad:%d", l.someAddr(w), amt, a.rn(3)))
+			a.g.Stats["craft-bindbad"]++
+		case 1:
+			t.outs = append(t.outs, fmt.Sprintf("%s:%d", l.anyDest(), amt))
+		default:
+			sc := craftedScripts[a.rn(len(craftedScripts))]
+			if sc == "" {
+				sc = "-"
+			}
+			t.outs = append(t.outs, fmt.Sprintf("raw:%d:%s", amt, sc))
+			a.g.Stats["craft-raw"]++
+		}
+		rest -= amt
+	}
+	t.line = fmt.Sprintf("tx %s %d %s %s", t.name, l.nTx, strings.Join(inSpecs, ";"), strings.Join(t.outs, ";"))
+	l.define(t)
+	l.pool = append(l.pool, t)
+	l.op("recvtx-crafted", "recvtx %s", t.name)
+}
+
 func genApi(g *Gen) {
 	nHist := g.Scale(60, 1500)
 	for h := 0; h < nHist; h++ {
@@ -544,7 +727,11 @@ func genApi(g *Gen) {
 					a.cur = w
 				}
 			case k < 16:
-				a.craft()
+				if g.Rng.Intn(2) == 0 {
+					a.craft()
+				} else {
+					a.craftPending()
+				}
 			case k == 16:
 				g.Op("restart", "restart")
 				a.cur = ""
@@ -561,7 +748,16 @@ func genApi(g *Gen) {
 				a.cur = w
 			}
 			for i, n := 0, 1+g.Rng.Intn(4); i < n; i++ {
-				a.request()
+				switch g.Rng.Intn(10) {
+				case 0, 1:
+					a.flowSign()
+				case 2:
+					a.flowCreate()
+				case 3:
+					a.flowAuto()
+				default:
+					a.request()
+				}
 			}
 			if g.Rng.Intn(4) == 0 {
 				g.Op("q-cur", "cur")
@@ -570,5 +766,111 @@ func genApi(g *Gen) {
 		}
 		l.drain()
 		l.observe(true)
+		switch g.Rng.Intn(10) {
+		case 0, 1, 2:
+			// the real follower start-up, a request right behind it (task queue must exist), shutdown
+			if g.Rng.Intn(2) == 0 {
+				g.Op("startcall", "startcall ImportWallet a:{} pass:W1")
+			} else {
+				g.Op("startcall", "startcall RemoveWallet wid:%s a:wrongpass123", l.wallets[0])
+			}
+			g.Op("res", "res")
+			a.cur = ""
+			for i := 0; i < 2; i++ {
+				a.request()
+			}
+		case 3, 4, 5, 6:
+			a.transitions()
+		}
+	}
+}
+
+// transitions: export, remove, (requests while removing), run the removal, import on a chain with
+// history, (requests while importing), run the import, more chain events. From the accepted removal on
+// the Lean model no longer tracks the wallet store: ops are wrapped in `x` (robust mode).
+func (a *apiGen) transitions() {
+	g, l := a.g, a.l
+	w := l.wallets[g.Rng.Intn(len(l.wallets))]
+	g.Op("call-ExportWallet", "call ExportWallet wid:%s pass:%s", w, w)
+	g.Op("res", "res")
+	if g.Rng.Intn(4) == 0 {
+		g.Op("call-RemoveWallet", "call RemoveWallet wid:%s a:wrongpass123", w)
+		g.Op("res", "res")
+	}
+	g.Op("call-RemoveWallet", "call RemoveWallet wid:%s pass:%s", w, w)
+	g.Op("res", "res")
+	a.precise = false
+	a.removing[w] = true
+	g.Engine = "api x"
+	defer func() { g.Engine = "api" }()
+	plain := func(class, f string, args ...interface{}) {
+		g.Engine = "api"
+		g.Op(class, f, args...)
+		g.Engine = "api x"
+	}
+	reqs := func(n int) {
+		for i := 0; i < n; i++ {
+			switch g.Rng.Intn(8) {
+			case 0:
+				a.flowSign()
+			case 1:
+				a.flowCreate()
+			case 2:
+				a.flowAuto()
+			default:
+				a.request()
+			}
+		}
+		plain("q-wallets", "wallets")
+		plain("q-cur", "cur")
+	}
+	g.Stats["state-removing"]++
+	reqs(2 + g.Rng.Intn(3))
+	if g.Rng.Intn(3) == 0 {
+		l.extend()
+		l.drain()
+	}
+	plain("rmrun", "rmrun %s", w)
+	a.removing[w] = false
+	a.removed[w] = true
+	if a.cur == w {
+		a.cur = ""
+	}
+	g.Stats["state-removed"]++
+	reqs(1 + g.Rng.Intn(3))
+	if g.Rng.Intn(5) == 0 {
+		return
+	}
+	plain("call-ImportWallet", "call ImportWallet ks:%s pass:%s", w, w)
+	a.removed[w] = false
+	a.import_[w] = true
+	g.Stats["state-importing"]++
+	reqs(2 + g.Rng.Intn(3))
+	if g.Rng.Intn(2) == 0 {
+		l.extend()
+		if g.Rng.Intn(2) == 0 {
+			l.reorgTo(1+g.Rng.Intn(2), 1)
+		}
+		l.drain()
+		reqs(1)
+	}
+	plain("impstep", "impstep %s", w)
+	a.import_[w] = false
+	g.Stats["state-imported"]++
+	plain("call-UseWallet", "call UseWallet wid:%s", w)
+	plain("res", "res")
+	a.cur = w
+	reqs(2 + g.Rng.Intn(3))
+	for i, n := 0, g.Rng.Intn(4); i < n; i++ {
+		switch g.Rng.Intn(3) {
+		case 0:
+			l.extend()
+		case 1:
+			l.recv()
+		default:
+			a.craftPending()
+		}
+		l.drain()
+		reqs(1)
 	}
 }
